@@ -63,6 +63,35 @@ func (k SettlementKeeper) CreateUTXR(ctx sdk.Context, tenantId uint64, utxr *typ
 	return utxrId, nil
 }
 
+// ImportUTXR stores a UTXR under the given id (genesis import) and keeps the id counter ahead of it
+func (k SettlementKeeper) ImportUTXR(ctx sdk.Context, tenantId, utxrId uint64, utxr *types.UTXR) error {
+	if k.HasUTXRByRequestId(ctx, tenantId, utxr.RequestId) {
+		return sdkerrors.Wrapf(types.ErrDuplicateRequestId, "UTXR with [request ID: %s] [tenant ID: %d] already exists.", utxr.RequestId, tenantId)
+	}
+
+	store := ctx.KVStore(k.storeKey)
+	if store.Has(types.UTXRStoreKey(tenantId, utxrId)) {
+		return sdkerrors.Wrapf(types.ErrDuplicateRequestId, "UTXR with [utxr ID: %d] [tenant ID: %d] already exists.", utxrId, tenantId)
+	}
+
+	for _, recipient := range utxr.Recipients {
+		accAddr := sdk.AccAddress(recipient.Address.Bytes())
+		if !k.ak.HasAccount(ctx, accAddr) {
+			k.ak.SetAccount(ctx, k.ak.NewAccountWithAddress(ctx, accAddr))
+		}
+	}
+
+	store.Set(types.UTXRStoreKey(tenantId, utxrId), k.cdc.MustMarshal(utxr))
+	store.Set(types.UTXRStoreByRequestIdKey(tenantId, utxr.RequestId), sdk.Uint64ToBigEndian(utxrId))
+
+	last := store.Get(types.LastUtxrIdStoreKey(tenantId))
+	if last == nil || sdk.BigEndianToUint64(last) < utxrId {
+		store.Set(types.LastUtxrIdStoreKey(tenantId), sdk.Uint64ToBigEndian(utxrId))
+	}
+
+	return nil
+}
+
 // DeleteUTXR deletes UTXR and UTXR ID from the store by its tenantId and utxrId
 func (k SettlementKeeper) deleteUTXR(ctx sdk.Context, tenantId, utxrId uint64) error {
 	store := ctx.KVStore(k.storeKey)
